@@ -104,7 +104,13 @@ EndBlock ==
   /\ ctrie' = [a \in Addrs |-> IF a \in touched THEN ContractLeaf(dep3[a], StorageRoot(sto1[a]), non1[a]) ELSE ctrie[a]]
   /\ diff' = EmptyDiff
 
-Next == Add \/ EndBlock
+\* a restart of the node between two blocks: new Blockchain / state / trie objects on the same store.
+\* Nothing of the abstract state, of the trie contents or of the commitment may depend on it.
+Restart == /\ diff = EmptyDiff
+           /\ act' = [name |-> "Restart"]
+           /\ UNCHANGED <<deployed, nonce, store, declared, ctrie, cltrie, diff, blocks>>
+
+Next == Add \/ EndBlock \/ Restart
 Spec == Init /\ [][Next]_vars
 
 ----------------------------------------------------------------------------
@@ -129,4 +135,6 @@ CommitmentRight == \A ver \in {"pre", "post"} : Commitment(ctrie, cltrie, ver) =
 VersionsDifferOnlyWithoutClasses ==
   (Commitment(ctrie, cltrie, "pre") # Commitment(ctrie, cltrie, "post"))
      <=> (RootOf(cltrie, Sierra) = Zero /\ RootOf(ctrie, Addrs) # Zero)
+\* (action property) a restart is a no-op on everything the commitment is computed from
+RestartIsNoOp == [][act'.name = "Restart" => UNCHANGED <<deployed, nonce, store, declared, ctrie, cltrie>>]_vars
 =============================================================================
